@@ -32,6 +32,12 @@ def evalWords (ws : List String) : Option String :=
     | ["hdeci", size, arg] => do
         let m ← parseBytes? arg; let sz ← parseInt? size
         pure (optHex (hexDecodeInPlaceM m sz))
+    | ["reuse", a, b] => do
+        let _ ← parseBytes? a; let m ← parseBytes? b
+        let c := hexEncode m; let cs := hexEncodeStr m; let e := b64Encode m; let u := b64urlEncode m
+        pure (bytesHex c ++ " " ++ bytesHex cs ++ " " ++ bytesHex e ++ " " ++ bytesHex u ++ " " ++
+          optHex ((hexDecodeM c c.length (c.length / 2)).bind fun d => (hexDecodeStrM cs).map fun d2 => d ++ d2) ++ " " ++
+          optHex (b64DecodeM e) ++ " " ++ optHex (b64urlDecodeM u))
     | ["hlong", n, a, b] => do
         let n ← n.toNat?; let a ← a.toNat?; let b ← b.toNat?
         let m := patternBytes n a b
